@@ -1367,6 +1367,7 @@ func runNodeDiff(outDir string, seed int64, tier string) {
 	}
 	r.errorResults(outDir)
 	r.rekeyedRounds(outDir)
+	r.faultedAnswers(outDir)
 	r.ops.Flush()
 	r.obs.Flush()
 	fo.Close()
